@@ -100,6 +100,9 @@ func StructConfigs(thorough bool, caches []string, formats []string) []*world.Co
 	cs = append(cs, world.Uint8Cfg(2, []uint8{2, 10, 100, 9, 200}, formats[len(formats)-1], "none"))
 	// a comparator answering -3/0/3
 	cs = append(cs, world.Wide(world.UintCfg(2, urange(1, 5), 1, formats[len(formats)-1], "none")))
+	// two live trees sharing in-memory nodes (clone either way), both modified and persisted
+	cs = append(cs, world.WithTwoSlots(world.UintCfg(2, ulist(1, 2, 3, 4), 1, f0, "none"), 5))
+	cs = append(cs, world.WithTwoSlots(world.UintCfg(2, ulist(1, 2, 4), 1, formats[len(formats)-1], "big"), 5))
 	// failing MakeRoot calls (a class of Store calls or one Marshal call fails) anywhere in the history
 	cs = append(cs, world.WithFlushFaults(world.UintCfg(2, urange(1, 4), 1, f0, "none")))
 	cs = append(cs, world.WithFlushFaults(depth(world.UintCfg(2, urange(1, 4), 1, formats[len(formats)-1], "big"), 6)))
@@ -171,7 +174,12 @@ func runSingle(run *report.Run, check string, cfgs []*world.Config, mon func(*wo
 	}
 }
 
-func stdOps(cfg *world.Config) []world.Op { return withKeptRoot(cfg, SingleOps(cfg, true)) }
+func stdOps(cfg *world.Config) []world.Op {
+	if cfg.TwoSlots {
+		return c02Ops(cfg, 2, true)
+	}
+	return withKeptRoot(cfg, SingleOps(cfg, true))
+}
 
 // withKeptRoot: for depth-bounded cache configurations (retained roots multiply the state space, so
 // not for closures) keep a root, let the cache lose its entries, load the kept root again through
@@ -184,6 +192,9 @@ func withKeptRoot(cfg *world.Config, ops []world.Op) []world.Op {
 }
 
 func opsWithJSON(cfg *world.Config) []world.Op {
+	if cfg.TwoSlots {
+		return c02Ops(cfg, 2, true)
+	}
 	return withKeptRoot(cfg, SingleOps(cfg, true, world.Op{Kind: world.OpReloadJSON}))
 }
 
@@ -290,6 +301,8 @@ func C13Configs(thorough bool) []*world.Config {
 	// slice values: re-inserting an equal value must be recognised as "nothing modified"
 	cfgs = append(cfgs, world.IntCfg(2, []int{1, 2, 3, 4}, []interface{}{[]int{1}, []int{2, 3}}, []int{}, M, "none"))
 	cfgs = append(cfgs, world.IntCfg(2, []int{1, 2, 4}, []interface{}{[]byte(nil), []byte{}}, []byte{}, B, "none"))
+	cfgs = append(cfgs, world.WithTwoSlots(world.UintCfg(2, ulist(1, 2, 3, 4), 1, B, "none"), 5))
+	cfgs = append(cfgs, world.WithTwoSlots(world.UintCfg(2, ulist(1, 2, 4), 1, M, "big"), 5))
 	cfgs = append(cfgs, world.WithFlushFaults(world.UintCfg(2, urange(1, 4), 1, B, "none")))
 	cfgs = append(cfgs, world.WithFlushFaults(depth(world.UintCfg(2, urange(1, 4), 1, M, "big"), 6)))
 	cfgs = append(cfgs, world.UintCfg(2, ulist(1, 2, 4), 1, B, "big"))
